@@ -331,7 +331,7 @@ def _threads(M, c):
 
     M.quiet += 1
     try:
-        hist, st = conc.run(items, one, nthreads=6, chunk=50)
+        hist, st = conc.run(items, one, nthreads=6, chunk=50, tick=M.progress)
     finally:
         M.quiet -= 1
     for k_, v in st.items():
